@@ -4,6 +4,9 @@ import json, os, subprocess
 ROOT = os.path.dirname(os.path.abspath(__file__))
 ALL = ["C%02d" % i for i in range(1, 21)]
 CHECKS = {
+ "C14": dict(engine="tlc+vh-replay", technique="independent matcher written in TLA+ (HostFilter.tla) enumerated by TLC over all bounded allow-lists x request forms; differential replay through the real HostFilterLayer",
+             text="HostFilter.tla defines label-sequence matching with one-or-more-label wildcards, port classes, authority determination from Host header and request target, and the allowed verdict set (soundness for every list, completeness where one pattern matches); TLC checks the matcher's own meta-properties and emits ~140k (list, request) pairs which are sent through the real layer around a counting inner service.",
+             note="hosts/patterns over 3 labels; entries and requests spelled in several concrete ways (schemes with default ports, userinfo, case, trailing dot, zero-padded ports, malformed headers)", ref="5 (C14)"),
  "C07": dict(engine="tlc+vh-replay", technique="TLA+ spec Limits.tla (request gate as a function of size and request limit only) enumerated by TLC; every case replayed on four entry points incl. Server::start over loopback TCP",
              text="Limits.tla states Outcome = (size <= max_request_body_size) with the response limit absent from the right-hand side and TLC checks the effective per-entry-point limit against it (as-is config documents F6); all grid cases (unequal limit pairs, boundary sizes, framings) are replayed on Server::start, TowerService, ws::connect and http::call_with_service_builder with bodies padded to the exact byte size; handler log, rejection form and WebSocket liveness are compared.",
              note="grid {64,100,1000}^2 and 7 boundary sizes; HTTP rejection may be 413 or 500", ref="5 (C07)"),
